@@ -20,3 +20,14 @@ mod light_self_emulation;
 
 #[cfg(not(feature = "truncated-challenges"))]
 pub mod light_aggregator;
+
+/// Verification hooks: additive re-exports of private items for the external
+/// harness.
+#[cfg(all(feature = "verif-hooks", not(feature = "truncated-challenges")))]
+#[allow(missing_docs)]
+pub mod verif_exports {
+    pub use crate::{
+        inner_product_argument::{ipa_prove, ipa_verify},
+        light_fiat_shamir::LightPoseidonFS,
+    };
+}
